@@ -42,7 +42,8 @@ def _select(cands: list[dict[str, Any]], scale: float) -> list[dict[str, Any]]:
     if scale >= 0.999:
         return cands
     step = max(1, round(1 / max(scale, 0.05)))
-    out, seen = [], {}
+    out: list[dict[str, Any]] = []
+    seen: dict[tuple[str, str], int] = {}
     for c in cands:
         k = (c["kind"], c["group"])
         seen[k] = seen.get(k, 0) + 1
@@ -128,8 +129,6 @@ def _account(ctx: common.Ctx, byname: dict[str, dict[str, Any]], t: dict[str, An
             ctx.cell("outcome:" + oc, n)
             if spec["pt"] == ["int", "int"]:
                 ctx.cell("int,int representation pair:" + rc, n)
-            if spec["op"] in ("<<", ">>") and spec["kind"] in ("bin", "inplace") and spec["pt"][1] != "bool":
-                pass
         if st.get("skipped"):
             ctx.cell("skipped:resource-blowup-or-complex", st["skipped"])
     for cfg in t["_configs"]:
@@ -148,11 +147,14 @@ def _account(ctx: common.Ctx, byname: dict[str, dict[str, Any]], t: dict[str, An
             w = dict(s)
             w.update({"source": g.HEADER + src_of.get(s["function"], g.function_source(spec)), "spec": spec, "repo": repo})
             ctx.violation(f"sanitizer:{kind}:{s['mechanism']}", "sanitizer report while executing a compiled numeric operation", w)
+    pool = ctx.extra.setdefault("_sample_pool", {})
     for s in res.get("samples", []):
-        if len(ctx.samples) < ctx.max_samples:
+        spec = byname[s["function"]]
+        k = f"{spec['kind']}:{_opfam(spec['op'])}:{','.join(spec['pt'])}"
+        if k not in pool and len(pool) < 400:
             s = dict(s)
             s["source"] = src_of.get(s["function"], "")
-            ctx.sample(s)
+            pool[k] = s
 
 
 def _shift_cells(ctx: common.Ctx, byname: dict[str, dict[str, Any]], results: list[tuple[dict[str, Any], dict[str, Any]]]) -> None:
@@ -179,8 +181,8 @@ def run(ctx: common.Ctx) -> None:
     quick = ctx.tier == "quick"
     scale = float(os.environ.get("VERIF_SCALE", "1"))
     repo = common.REPO
-    n_random = max(10, int((300 if quick else 60000) * min(scale, 1.0) ** 0.5 * max(scale, 1.0)))
-    n_random_san = max(5, int((40 if quick else 3000) * min(scale, 1.0) ** 0.5 * max(scale, 1.0)))
+    n_random = max(10, int((300 if quick else 150000) * min(scale, 1.0) ** 0.5 * max(scale, 1.0)))
+    n_random_san = max(5, int((40 if quick else 6000) * min(scale, 1.0) ** 0.5 * max(scale, 1.0)))
     thin_san = 4 if quick else 1
     n_modules = 9 if scale >= 0.5 else 4
     ctx.rule = ("one-operation functions (op x operand types mypy accepts x {plain, literal operand, augmented assignment, "
@@ -227,7 +229,7 @@ def run(ctx: common.Ctx) -> None:
         ctx.extra["functions"] = {"candidates": len(cands), "accepted_by_mypy": len(specs)}
         frac = len(cands) / max(1, len(g.candidates()))
         ctx.floor_nontrivial = int(4500 * frac)
-        ctx.floor_evaluations = int((4_000_000 if quick else 100_000_000) * frac * min(1.0, scale) ** 0.5)
+        ctx.floor_evaluations = int((4_000_000 if quick else 200_000_000) * frac * min(1.0, scale) ** 0.5)
         byname = {s["name"]: s for s in specs}
         mods = g.module_sources(specs, n_modules)
         san_env = c15_build.san_run_env(os.path.join(wd, "sanlog", "san"))
@@ -299,6 +301,16 @@ def _tidy(ctx: common.Ctx, per_key: int = 3) -> None:
         elif n < per_key:
             rest.append(v)
     ctx.extra["violation_observations_per_key"] = dict(sorted(counts.items()))
+    # written-out samples: one per distinct (kind, op family, operand types), spread over the kinds
+    pool = ctx.extra.pop("_sample_pool", {})
+    by_kind: dict[str, list[Any]] = {}
+    for k in sorted(pool):
+        by_kind.setdefault(k.split(":")[0], []).append(pool[k])
+    while len(ctx.samples) < ctx.max_samples and any(by_kind.values()):
+        for kind in sorted(by_kind):
+            if by_kind[kind] and len(ctx.samples) < ctx.max_samples:
+                lst = by_kind[kind]
+                ctx.sample(lst.pop(len(lst) // 2))
     ctx.violations[:] = sorted(first, key=lambda v: v["key"]) + rest
     rej: dict[str, dict[str, Any]] = {}
     for r in ctx.extra.get("c_compiler_rejections", []):
